@@ -2,6 +2,7 @@ package rules
 
 import (
 	"fmt"
+	"os"
 	"go/types"
 	"sort"
 	"strings"
@@ -359,14 +360,19 @@ var guardTable = []guardRow{
 }
 
 // AtomicMaps: the guarded fields of map type, with their lock class (for check-then-act atomicity).
-func AtomicMaps() map[string]string {
-	return map[string]string{
+func AtomicMaps(w *load.World) map[string]string {
+	m := map[string]string{
 		"cache.Manager.sharedCaches":      "cache.Manager.mu",
 		"cache.Transaction.writtenCaches": "cache.Transaction.mu",
-		"cluster.ShardManager.shardStore": "cluster.ShardManager.shardLock",
 		"cache.ItemCache.items":           "cache.ItemCache.itemsMu",
 		"cluster.ClusterNode.rpcClients":  "cluster.ClusterNode.rpcClientsMu",
 	}
+	if f, l := shardRegistryRow(w); f != "" {
+		m[f] = l
+	} else {
+		m["cluster.ShardManager.shardStore"] = "cluster.ShardManager.shardLock"
+	}
+	return m
 }
 
 // ------------------------------------------------------------------- ATOMIC
@@ -440,13 +446,29 @@ func isWriteOf(fa *ssa.FieldAddr) bool {
 	return false
 }
 
+// guardRows: the table, with the shard registry's row resolved by type (the field and its mutex
+// may have been renamed or regrouped into a struct of their own)
+func guardRows(w *load.World) []guardRow {
+	out := append([]guardRow{}, guardTable...)
+	if f, l := shardRegistryRow(w); f != "" {
+		out[0].Field, out[0].Lock = f, l
+	}
+	return out
+}
+
 func Guard(w *load.World, ls *lockset.Result, c *core.Collector) {
 	rows := map[string]guardRow{}
 	found := map[string]int{}
+	guardTable := guardRows(w)
 	for _, r := range guardTable {
 		rows[r.Field] = r
 	}
 	for _, f := range w.Fns {
+		// an instance of a generic function over another function's type parameter (the body a
+		// generic helper refers to) never runs: its ground instances do, and are checked
+		if partialInstance(f) {
+			continue
+		}
 		for _, b := range f.Blocks {
 			for _, in := range b.Instrs {
 				fa, ok := in.(*ssa.FieldAddr)
@@ -472,6 +494,9 @@ func Guard(w *load.World, ls *lockset.Result, c *core.Collector) {
 				m := ls.HeldAt(in)[row.Lock]
 				switch {
 				case m == lockset.None:
+					if os.Getenv("SEMA_DEBUG") != "" {
+						fmt.Fprintf(os.Stderr, "GUARD DEBUG: %s typeargs=%v partial=%v\n", f.String(), f.TypeArgs(), partialInstance(f))
+					}
 					c.Add("GUARD", key, core.Violation, w.At(in), fmt.Sprintf("%s of %s without %s held", kind, row.Field, row.Lock), row.Props...)
 				case write && row.WriteNeedsW && m != lockset.W:
 					c.Add("GUARD", key, core.Violation, w.At(in), fmt.Sprintf("write of %s under a read lock only", row.Field), row.Props...)
@@ -814,4 +839,45 @@ func fieldOfAddr(v ssa.Value) string {
 		return fieldOf(fa)
 	}
 	return ""
+}
+
+// partialInstance: f (or the function a literal sits in) is an instantiation whose type arguments
+// still mention a type parameter
+func partialInstance(f *ssa.Function) bool {
+	for f.Parent() != nil {
+		f = f.Parent()
+	}
+	// the generic function itself (its body is only a template for the instances)
+	if tp := f.TypeParams(); tp != nil && tp.Len() > 0 && len(f.TypeArgs()) == 0 {
+		return true
+	}
+	var mentions func(t types.Type, d int) bool
+	mentions = func(t types.Type, d int) bool {
+		if d > 4 {
+			return false
+		}
+		switch x := t.(type) {
+		case *types.TypeParam:
+			return true
+		case *types.Pointer:
+			return mentions(x.Elem(), d+1)
+		case *types.Slice:
+			return mentions(x.Elem(), d+1)
+		case *types.Named:
+			if ta := x.TypeArgs(); ta != nil {
+				for i := 0; i < ta.Len(); i++ {
+					if mentions(ta.At(i), d+1) {
+						return true
+					}
+				}
+			}
+		}
+		return false
+	}
+	for _, t := range f.TypeArgs() {
+		if mentions(t, 0) {
+			return true
+		}
+	}
+	return false
 }
